@@ -8,6 +8,9 @@ import (
 	"go/constant"
 	"go/token"
 	"go/types"
+	"os"
+	"path/filepath"
+	"regexp"
 	"sort"
 	"strings"
 
@@ -3121,4 +3124,37 @@ func c11R12(c *Ctx, r *Report) {
 	})
 	r.Check(ok, rule, fn.Name(), "`**=` requires the target to have the type `**` yields", c.pos(fn.Decl.Pos()),
 		"a compound assignment with the power operator is checked like a binary expression only: `let z: i32 = 3; let e: f64 = 2.0; z **= e;` passes the type checker (an implicit f64 -> i32) and QBE rejects the program (\"invalid type for first operand in arg\"); `z **= 2` on an i32 or f32 fails the same way")
+}
+
+// ---- C13.R19: the amd64 instruction templates of the embedded QBE use existing conversion instructions ------
+
+func init() {
+	lateInits = append(lateInits, func() {
+		props["C13"].Quick = append(props["C13"].Quick, c13R19)
+		props["C01"].Quick = append(props["C01"].Quick, c13R19)
+		props["C13"].Explanation += " (R19) every cvt* mnemonic in the instruction templates of qbe/amd64/emit.c and win64_emit.c is one of the SSE scalar conversions the assembler knows (cvtss2sd, cvtsd2ss, cvttss2si, cvttsd2si, cvtsi2ss, cvtsi2sd, also written with the %k class suffix)."
+	})
+}
+
+func c13R19(c *Ctx, r *Report) {
+	const rule = "C13.R19"
+	r.Describe(rule, "qbe/amd64/emit.c, qbe/amd64/win64_emit.c: each string template that starts with `cvt` names an SSE scalar conversion instruction (the %k suffix stands for s/d resp. l/q)")
+	valid := map[string]bool{"cvtss2sd": true, "cvtsd2ss": true, "cvttss2si": true, "cvttsd2si": true, "cvtss2si": true, "cvtsd2si": true, "cvtsi2ss": true, "cvtsi2sd": true,
+		"cvttss2si%k": true, "cvttsd2si%k": true, "cvtsi2%k": true, "cvtss2si%k": true, "cvtsd2si%k": true}
+	re := regexp.MustCompile(`"(cvt[a-z0-9%]*)[ "]`)
+	n := 0
+	for _, rel := range []string{"qbe/amd64/emit.c", "qbe/amd64/win64_emit.c"} {
+		data, err := os.ReadFile(filepath.Join(c.RepoDir, rel))
+		if !r.Anchor(rule, err == nil, rel) {
+			continue
+		}
+		for i, line := range strings.Split(string(data), "\n") {
+			for _, m := range re.FindAllStringSubmatch(line, -1) {
+				n++
+				r.Check(valid[m[1]], rule, rel, "template "+m[1]+" is an x86 instruction", fmt.Sprintf("%s:%d", rel, i+1),
+					"the template names `"+m[1]+"`, which is not an x86 instruction: a program that converts a run-time f64 to f32 (`id(2.5) as f32`) compiles to assembly the assembler rejects (\"no such instruction\", build failed) while the same cast of a constant is folded and works")
+			}
+		}
+	}
+	r.Floor(rule, n, 8, "cvt* templates")
 }
